@@ -425,7 +425,8 @@ func (self *BinaryConv) handleUnsets(b *thrift.RequiresBitmap, desc *thrift.Stru
 		} else {
 			*out = json.EncodeArrayComma(*out)
 		}
-		*out = json.EncodeString(*out, field.Name())
+		// NOTICE: use the same key as for fields that are present in the message (alias equals name by default)
+		*out = json.EncodeString(*out, field.Alias())
 		*out = json.EncodeObjectColon(*out)
 		return writeDefaultOrEmpty(field, out)
 	})
